@@ -109,7 +109,7 @@ Section Refine.
           + destruct S as (-> & Hw & Hs). split; [|exact I]. rewrite <- Hv. eapply refines_set; eauto.
           + destruct S as (-> & ->). split; [assumption|reflexivity].
         - destruct S as (-> & Hw & Hs). split; [|exact I]. rewrite <- Hv. eapply refines_set; eauto. }
-      unfold sched_args in SP. simpl.
+      unfold sched_args, arg_check_index in SP. simpl.
       destruct jd as [d|].
       2:{ destruct SP as (-> & -> & ->). injection H as <- <- _ <-. destruct tr; simpl; auto. }
       destruct tr as [t|].
@@ -194,3 +194,109 @@ Section Refine.
     Forall2 res_match outs souts /\ refines O q' r' /\ ts' = sts'.
   Proof. intros ops ts. apply api_refines_registry_gen. apply refines_empty. Qed.
 End Refine.
+
+(* ---------- C09: each documented sentinel exactly when its precondition fails ---------- *)
+Ltac unfold_sent := unfold delete_nilkey_sentinel, pause_nilkey_sentinel, resume_nilkey_sentinel, get_nilkey_sentinel,
+  queue_remove_missing_sentinel, queue_get_missing_sentinel, queue_push_exists_sentinel,
+  pause_suspended_sentinel, resume_active_sentinel in *.
+
+Lemma arg_sentinel_any : forall jd tr, nth (arg_check_index jd tr) schedule_arg_sentinels SOther = SIllegalArgument.
+Proof.
+  intros jd tr. unfold arg_check_index. destruct jd as [d|]; [|reflexivity].
+  destruct (jd_key d) as [k|]; [|reflexivity]. destruct (name_empty k); reflexivity.
+Qed.
+
+Section Sentinels.
+  Variable O : queue_ops.
+  Hypothesis HC : queue_contract O.
+  Variable tstate : Type.
+  Variable nft : tid -> tstate -> Z -> tstate * (Z + terr).
+  Notation tsmap := (tid -> tstate).
+
+  Definition present (k : jkey) (q : Q O) : bool := match q_get O k q with Some _ => true | None => false end.
+
+  (* the documented precondition table *)
+  Definition expected_error (now : Z) (op : apiop) (q : Q O) (ts : tsmap) : option errc :=
+    match op with
+    | OpSchedule jd tr =>
+      match sched_args jd tr with
+      | None => Some (ESent SIllegalArgument)                      (* nil job detail / nil key / empty name / nil trigger *)
+      | Some (k, d, t) =>
+        let exists_err := if present k q && negb (jd_repl d) then Some (ESent SJobAlreadyExists) else None in
+        if jd_susp d then exists_err
+        else match snd (nft t (ts t) now) with
+             | inr e => Some (ETrig e)                             (* the trigger's own error *)
+             | inl _ => exists_err
+             end
+      end
+    | OpDelete None | OpPause None | OpResume None | OpGet None => Some (ESent SIllegalArgument)
+    | OpDelete (Some k) | OpGet (Some k) => if present k q then None else Some (ESent SJobNotFound)
+    | OpPause (Some k) =>
+      match q_get O k q with
+      | None => Some (ESent SJobNotFound)
+      | Some e => if e_susp e then Some (ESent SJobIsSuspended) else None
+      end
+    | OpResume (Some k) =>
+      match q_get O k q with
+      | None => Some (ESent SJobNotFound)
+      | Some e => if negb (e_susp e) then Some (ESent SJobIsActive)
+                  else match snd (nft (e_tid e) (ts (e_tid e)) now) with
+                       | inr err => Some (ETrig err)
+                       | inl _ => None
+                       end
+      end
+    | OpClear | OpKeys => None
+    end.
+
+  Lemma sentinel_iff : forall now op q ts q' ts' evs res, q_wf O q ->
+    api O tstate nft now op q ts = (q', ts', evs, res) ->
+    forall e, res = RErr e <-> expected_error now op q ts = Some e.
+  Proof.
+    intros now op q ts q' ts' evs res Hwf H e.
+    destruct op as [jd tr|k|k|k| |k| ]; simpl in H; unfold expected_error.
+
+    - destruct (sched_pre tstate nft now jd tr ts) as [[ts1 evs1] r1] eqn:P.
+      pose proof (sched_pre_spec tstate nft now jd tr ts ts1 evs1 r1 P) as SP. rewrite arg_sentinel_any in SP.
+      assert (Hc : forall ent q1 res1, sched_commit O ent q = (q1, res1) ->
+                (res1 = RErr e <-> (if present (e_key ent) q && negb (e_repl ent) then Some (ESent SJobAlreadyExists) else None) = Some e)).
+      { intros ent q1 res1 Cm. pose proof (sched_commit_spec O HC ent q q1 res1 Hwf Cm) as S. unfold present. unfold_sent.
+        destruct (q_get O (e_key ent) q); [destruct (e_repl ent)|]; simpl.
+        - destruct S as (-> & _). split; discriminate.
+        - destruct S as (_ & ->). split; congruence.
+        - destruct S as (-> & _). split; discriminate. }
+      destruct (sched_args jd tr) as [[[k d] t]|].
+      + destruct (jd_susp d).
+        * destruct SP as (-> & -> & ->). destruct (sched_commit O _ q) as [q1 res1] eqn:Cm.
+          injection H as _ _ _ <-. apply (Hc _ _ _ Cm).
+        * destruct (nft t (ts t) now) as [st' [p|err]]; destruct SP as (-> & -> & ->); simpl.
+          -- destruct (sched_commit O _ q) as [q1 res1] eqn:Cm. injection H as _ _ _ <-. apply (Hc _ _ _ Cm).
+          -- injection H as _ _ _ <-. split; congruence.
+      + destruct SP as (-> & -> & ->). injection H as _ _ _ <-. split; congruence.
+    - destruct (delete O k q) as [q1 res1] eqn:D. injection H as _ _ _ <-.
+      pose proof (delete_spec O HC k q q1 res1 Hwf D) as S. unfold_sent. destruct k as [k|]; unfold present.
+      + destruct (q_get O k q).
+        * destruct S as (-> & _). split; discriminate.
+        * destruct S as (_ & ->). split; congruence.
+      + destruct S as (_ & ->). split; congruence.
+    - destruct (pause O k q) as [q1 res1] eqn:D. injection H as _ _ _ <-.
+      pose proof (pause_spec O HC k q q1 res1 Hwf D) as S. unfold_sent. destruct k as [k|].
+      + destruct (q_get O k q) as [x|]; [destruct (e_susp x)|].
+        * destruct S as (_ & ->). split; congruence.
+        * destruct S as (-> & _). split; discriminate.
+        * destruct S as (_ & ->). split; congruence.
+      + destruct S as (_ & ->). split; congruence.
+    - pose proof (resume_spec O HC tstate nft now k q ts q' ts' evs res Hwf H) as S. unfold_sent. destruct k as [k|].
+      + destruct (q_get O k q) as [x|]; [destruct (negb (e_susp x))|].
+        * destruct S as (_ & _ & _ & ->). split; congruence.
+        * destruct (nft (e_tid x) (ts (e_tid x)) now) as [st' [p|err]]; destruct S as (_ & _ & S); simpl.
+          -- destruct S as (-> & _). split; discriminate.
+          -- destruct S as (_ & ->). split; congruence.
+        * destruct S as (_ & _ & _ & ->). split; congruence.
+      + destruct S as (_ & _ & _ & ->). split; congruence.
+    - unfold clear in H. injection H as _ _ _ <-. split; discriminate.
+    - injection H as _ _ _ <-. unfold get, present, queue_get_missing_sentinel, get_nilkey_sentinel. destruct k as [k|].
+      + destruct (q_get O k q); split; (discriminate || congruence).
+      + split; congruence.
+    - injection H as _ _ _ <-. unfold keys. split; discriminate.
+  Qed.
+End Sentinels.
